@@ -35,9 +35,34 @@ def job_items(small_only=False):
     prog = st.one_of(gen_prog.programs(max_stmts=12, with_control=True), gen_macro.macro_programs(single_file=True, max_stmts=15, with_control=True))
     p_item = prog.map(lambda p: {"kind": "program", "prog": p})
     s_item = decomp.input_strategy(w1=1, w2=1, w3=2, max_stmts=12).map(lambda c: {"kind": "ssb", "case": c})
+    # inputs whose result depends on what the decompiler's memo table holds (built for C11): nested loops, switches with
+    # empty cases, ifs with empty bodies in front of a switch
+    from vf.checks import c11
+
+    memo = c11.memo_table_inputs().flatmap(lambda items: st.sampled_from(items)) if True else None
+    empty_if_switch = st.tuples(st.integers(0, 3), st.integers(1, 3), st.sampled_from(["hold", "end", "return"])).map(_empty_if_then_switch)
     if small_only:
-        return weighted((1, p_item), (3, s_item))
-    return weighted((2, p_item), (4, s_item), (1, deep_item()), (1, failing_item()))
+        return weighted((1, p_item), (3, s_item), (1, memo), (1, empty_if_switch))
+    return weighted((2, p_item), (4, s_item), (1, deep_item()), (1, failing_item()), (1, memo), (1, empty_if_switch))
+
+
+def _empty_if_then_switch(t):
+    """a routine whose last if has an empty body, followed by a switch with one case and a default that ends the routine"""
+    npre, ncase, term = t
+    n = [0]
+
+    def op():
+        n[0] += 1
+        return {"k": "op", "name": f"ms_{n[0]}", "args": [], "ctx": None}
+
+    body = [op() for _ in range(npre)]
+    body.append({"k": "if", "not": False, "conds": [{"c": "neg", "not": False, "kw": "debug"}], "body": [], "elifs": [], "else": None})
+    cases = [{"default": False, "head": {"ch": "val", "v": {"t": "int", "v": j}}, "body": [op(), {"k": "ctl", "v": "break"}]} for j in range(ncase)]
+    cases.append({"default": True, "head": None, "body": [op(), {"k": "ctl", "v": term}]})
+    body.append({"k": "switch", "head": {"h": "var", "v": {"t": "const", "v": "$MS"}}, "cases": cases})
+    body += [op(), {"k": "ctl", "v": "end"}]
+    routines = [{"kind": "def", "id": i, "name": None, "target": None, "alias": False, "body": body} for i in range(2)]
+    return {"kind": "ssb", "memo": "if_switch", "case": {"stratum": 1, "gaps": [0], "prog": {"imports": [], "macros": [], "routines": routines}}}
 
 
 def failing_item():
